@@ -59,6 +59,7 @@ type Table struct {
 	ID      int     `json:"id"`
 	Pkg     string  `json:"pkg"`
 	Lookup  string  `json:"lookup"`
+	Reg     string  `json:"reg"`
 	KeyKind string  `json:"keykind"`
 	Entries []Entry `json:"entries"`
 }
